@@ -390,8 +390,13 @@ def probe_layer(ctx):
         v = b * 3.0 - 7.0 + EPS
         return v * (1.0 + 2.0 ** -30) if b.size > 1 else float(v[0])
 
+    def f_approx32(b):                  # the same in single precision: a float32 result whose batch path is off by 2^-22
+        b = np.atleast_1d(b)            # (seeded change C14-hB took the tolerance from the resolution of the returned dtype)
+        v = (b * 3.0 - 7.0).astype(np.float32)
+        return (v * np.float32(1.0 + 2.0 ** -22)).astype(np.float32) if b.size > 1 else np.float32(v[0])
+
     for name, f in (("(n,)", f_ok), ("(1,n)", f_row), ("(n,1)", f_col), ("scalar-only", f_scalar_only), ("reducing", f_reduce),
-                    ("approximate-batch-path", f_approx)):
+                    ("approximate-batch-path", f_approx), ("approximate-batch-path-f32", f_approx32)):
         for n in (1, 2, 5):
             for chunk in (None, 2):
                 for pool_n in (None, 2):
@@ -410,6 +415,8 @@ def probe_layer(ctx):
                                         f"call then raised {_exc(e)}: {e}", case)
                         continue
                     want = np.array([point_value(i) for i in range(n)])
+                    if name.endswith("-f32"):
+                        want = np.array([float(np.float32(i * 3.0 - 7.0)) for i in range(n)])
                     out = np.asarray(out, dtype=float)
                     if out.shape != want.shape or not np.array_equal(out, want):
                         ctx.oracle_fail("batch_evaluate_function", f"probe said vectorised={vec} for a function returning {name}: batch result "
